@@ -1105,6 +1105,7 @@ func TestCheck(t *testing.T) {
 	// for the rest of the process, and every such event costs a whole-process
 	// stack dump. After maxBubbleFailures of them the verdict is settled; the
 	// remaining scenarios are skipped (the floors then also report the gap).
+	var nPreCancelledReps atomic.Int64
 	const maxBubbleFailures = 64
 	var nIncon, nBubbleFail, nSkipped atomic.Int64
 	run := func(work string, i int, sc scenario) {
@@ -1118,6 +1119,17 @@ func TestCheck(t *testing.T) {
 			nBubbleFail.Add(1)
 		}
 		fs, incon, st := check(&sc, res)
+		// A context that has already ended when Dial is called meets Dial's own start-up: which of several ready
+		// channel operations wins is up to the scheduler. These scenarios end at once, so each is run several times.
+		if sc.CancelKind == cancelFunc && sc.CancelAt == 0 && len(sc.Targets) > 0 && !r.Replaying() {
+			for rep := 0; rep < 12 && len(fs) == 0 && res.BubbleErr == ""; rep++ {
+				res2 := runScenario(t, &sc, false)
+				if fs2, incon2, st2 := check(&sc, res2); len(fs2) > 0 {
+					res, fs, incon, st = res2, fs2, incon2, st2
+				}
+				nPreCancelledReps.Add(1)
+			}
+		}
 		if r.Replaying() && len(fs) == 0 {
 			// Same-instant races inside Dial are scheduler dependent: when a single
 			// case is replayed and does not refute at once, repeat it (case count,
@@ -1261,6 +1273,7 @@ func TestCheck(t *testing.T) {
 	if n := nSkipped.Load(); n > 0 {
 		r.Count("scenarios_skipped_after_repeated_goroutine_leaks", n)
 	}
+	r.Count("repetitions_of_scenarios_with_an_already_ended_context", nPreCancelledReps.Load())
 	r.Count("attempts_started", nAttempts.Load())
 	r.Count("scenarios_with_winner", nWinner.Load())
 	r.Count("late_winners_closed", nLateClosed.Load())
